@@ -42,7 +42,7 @@ def step (s : S) (line : String) : S × String :=
         -- `esl-sfetch --index f` leaves `f.ssi` behind: later fetches of the case may rely on it
         let files := match tool, argv with
           | "esl-sfetch", ["--index", f] => (f ++ ".ssi", some []) :: s.files
-          | "easel", ["index", f] => (f ++ ".ssi", some []) :: s.files
+          | "easel", "index" :: rest => ((rest.getLast?.getD "") ++ ".ssi", some []) :: s.files
           | _, _ => written.map (fun p => (p.1, some p.2)) ++ s.files
         ({ s with last := some out.toList, files := files }, "rc=0 out=" ++ hexOrDash (charsToBytes out.toList))
       | none => ({ s with last := none }, "nopred")
